@@ -14,9 +14,10 @@ import struct
 
 
 class Malformed(Exception):
-    def __init__(self, clause, detail=''):
+    def __init__(self, clause, detail='', parent=None):
         super().__init__(f'{clause} {detail}')
         self.clause = clause
+        self.parent = parent      # type number of the container whose content is malformed (None = the outer buffer)
 
 
 def read_num(buf, off, end, minimal=True):
@@ -56,7 +57,12 @@ class El:
         return self.end - self.vstart
 
     def children(self, minimal=True):
-        return read_seq(self.buf, self.vstart, self.end, minimal)
+        try:
+            return read_seq(self.buf, self.vstart, self.end, minimal)
+        except Malformed as e:
+            if e.parent is None:
+                e.parent = self.typ
+            raise
 
     def __repr__(self):
         return f'El({self.typ:#x},{self.start}:{self.vstart}:{self.end})'
